@@ -942,9 +942,18 @@ def main(tier):
           "extraction: ExtrOcamlBasic only; OCaml 4.13.1", "lib/modgen.py (generator, independent X.680 tagging), lib/widegen.py, lib/modbuild.py, lib/c13_util.py, lib/c13_families.py (directed families, hand-made DER), lib/c13_descr.py (parser of the dumped tables, Python erasure), harness/moddrv.c, harness/dumpdescr.c (translator, reads the public asn_TYPE_descriptor_t layout), ocaml/drv_c13.ml (integer-tree parser); gcc + ASan/UBSan",
           "values reach every build as DER through ber_decode; wide-layer values are those the baseline build's asn_random_fill produces",
           "builds made with -no-gen-OER / -no-gen-PER are linked with the full skeleton archive and are not asked for the disabled syntax"]
+    # one violation of every kind among the first ones (lib/vlib.py writes replay files for the first 20 only)
+    first, rest, seen_kinds = [], [], set()
+    for v in run.violations:
+        (rest if v["kind"] in seen_kinds else first).append(v)
+        seen_kinds.add(v["kind"])
+    run.violations[:] = first + rest
+    vkinds = {}
+    for v in run.violations:
+        vkinds[v["kind"]] = vkinds.get(v["kind"], 0) + 1
     return run.finish("proof", (nthm, ndis), trusted_base=tb,
                       checker_cmd="make -C /verif all && coqc -Q coq A1 coq/Props/Properties_C13.v",
-                      extra_cov={"family_values_not_encodable_anywhere": FAMILY_NOTES, "theorems": names, "coqchk": coqchk, "driver_notes": run.notes[:12], "modules": len(mods), "wide_modules": len(wmods), "option_sets": [" ".join(v.opts) for v in variants],
+                      extra_cov={"violation_kinds": vkinds, "family_values_not_encodable_anywhere": FAMILY_NOTES, "theorems": names, "coqchk": coqchk, "driver_notes": run.notes[:12], "modules": len(mods), "wide_modules": len(wmods), "option_sets": [" ".join(v.opts) for v in variants],
                                  "rule": "one case = one driver command line (value x syntax encoded by every build, or one distinct output decoded by every build); distinct command lines",
                                  "traces_validated_against_impl": run.cov["evaluations"]},
                       assumptions=["theorems cover the INTEGER/ENUMERATED native-vs-wide leaf (DER, BER decode, the conversions used by PER/OER), pointer vs inline member access for OER and DER over the first-milestone algebra (Rt/Layout.v), the descriptor erasure with its comparison and the emitter's slot decision (Rt/Options.v); REAL native/wide, UPER/XER on the structure, the wide algebra and the naming/include options are covered by the tie only",
